@@ -123,7 +123,7 @@ impl Serialize for CanonicalBlock {
         S: Serializer,
     {
         let crc_code = self.crc.to_code();
-        let num_elems = if crc_code == CRC_NO { 5 } else { 6 };
+        let num_elems = if self.crc.has_crc() { 6 } else { 5 };
 
         let mut seq = serializer.serialize_seq(Some(num_elems))?;
         seq.serialize_element(&self.block_type)?;
